@@ -198,6 +198,30 @@ def run(repo):
                                                                ntext(n.slice)), repo.where(fi, n), P))
     if n_sub < 8:
         raise AnalysisError('only %d subscripts of scenario-indexed sequences found' % n_sub)
+    # ---------------------------------------------------------------- (f) no per-event memo of per-scenario work
+    # scenarios of one event share *decision variables*, not realisations, supports or (after a later
+    # adapt()) even the partition an expression was built with: a scenario loop may use event_dict(..)[s]
+    # to index the variable layout, but not as the key of a "done already" set / cache that skips or
+    # replays the work of a scenario
+    for fi in repo.all_functions():
+        if fi.module not in SCAN:
+            continue
+        loops, assigns = _bindings(fi)
+        edicts = {nm for nm, vals in assigns.items() for v in vals
+                  if isinstance(v, ast.Call) and call_name(v) == 'event_dict'}
+        if not edicts:
+            continue
+        for n in walk_no_nested(fi.node):
+            if isinstance(n, ast.Compare) and len(n.ops) == 1 and isinstance(n.ops[0], (ast.In, ast.NotIn)) and \
+                    isinstance(n.left, ast.Subscript) and isinstance(n.left.value, ast.Name) and n.left.value.id in edicts:
+                res.functions.add(fi.fq)
+                res.inst({'function': fi.fq, 'event-keyed membership test': ntext(n)[:60], 'ok': False}, False)
+                res.fail(Finding(RULE, fi.fq, 'event-keyed memo: ' + ntext(n)[:50],
+                                 '%s tests `%s`: the work of a scenario is skipped or replayed when another scenario '
+                                 'of the same event was handled before. Scenarios of one event share decision '
+                                 'variables only -- their realisations, supports and (after a later adapt()) the '
+                                 'partition itself can differ, so every scenario must be expanded / evaluated'
+                                 % (fi.fq, ntext(n)[:60]), repo.where(fi, n), {'props': ['C12', 'C13', 'C03']}))
     # ---------------------------------------------------------------- (b)
     n_calls = 0
     for fi in repo.all_functions():
